@@ -23,6 +23,10 @@ FnCnaryGuess     guess_xx, the WHOLE function (optional boolean OB: `if is_xy is
                                                                               (C15_source_guess_xx)
 FnCnaryFlatWhole expect_flat_log2, the WHOLE function incl. the default `is_haploid_x_reference = not self.guess_xx(...)`
                                                     (C15_source_flat_whole_given, C15_source_flat_whole_guess)
+FnGaryAutosomes  skgenome/gary.py GenomicArray.autosomes, WHOLE, per row "the row is kept" (row_filter; opaque range for the
+                 chromosome-name form of `also`)                              (C15_source_gary_autosomes)
+FnCnaryAutosomes CopyNumArray.autosomes, the WHOLE override (`also` an optional mask bit, `super().autosomes` a function-typed
+                 input = the generated base-class function)           (C15_source_autosomes, C15_source_autosomes_also)
 FnSexCommand     cnvlib/commands.py do_sex: strsign, guess_and_format (both nested, whole), the column names
                                                     (C15_source_strsign, C15_source_do_sex_row, C15_source_do_sex_columns)
 
@@ -51,6 +55,10 @@ translator refuses the module, which the check reports as a broken tie):
   FnCnaryGuess    `return ~is_xy` -> `return is_xy` KILLED ; `if is_xy is None:` -> `is not None` REFUSED (~ on a non-boolean)
   FnCnaryFlatWhole  `not self.guess_xx(..)` -> `self.guess_xx(..)` REFUSED (default of the optional boolean has type OB) ;
                   `cvg[idx] = -1.0` -> `1.0` KILLED ; female-reference mask `chr_y_filter()` -> `chr_y_filter(diploid_parx_genome)` KILLED
+  FnGaryAutosomes `if not is_auto.any()` -> `if is_auto.any()` KILLED ; `is_auto |= also` -> `&=` KILLED ; `return self[is_auto]`
+                  -> `self[~is_auto]` KILLED
+  FnCnaryAutosomes  `also = self.parx_filter(..)` -> `~self.parx_filter(..)` KILLED ; `also |= ...` -> `&=` KILLED ;
+                  `super().autosomes(also=also)` -> `(also=None)` KILLED
   FnSexCommand    "Male" / "Female" swapped KILLED ; `num > 0` -> `>=` KILLED ; the Y column printing chrx_ratio KILLED ;
                   two column names swapped KILLED
 """
@@ -210,6 +218,29 @@ MODULES = {
                      ('self.chr_y_filter(diploid_parx_genome).values', 'B', 'on_y'),
                      ('self.chr_y_filter().values', 'B', 'on_y_all')],
              ret='Q'),
+    ]),
+    # autosomes: GenomicArray.autosomes (skgenome/gary.py) and its override CopyNumArray.autosomes, both WHOLE, read per row
+    # as "the row is in the returned table" (row_filter: `return self` keeps every row, `return self[mask]` the rows of the
+    # mask).  `also` is None or a mask: an optional boolean per row.  The branch of the base class for an `also` that is a
+    # chromosome name / a list of names (a loop of `is_auto |= self.chromosome == a_chrom`) is an opaque range (never taken
+    # from cnary.py, which passes a mask).  In the override `super().autosomes` is a function-typed input that the theorem
+    # instantiates with the generated base-class function.
+    'FnGaryAutosomes': ('skgenome/gary.py', [
+        dict(name='GenomicArray.autosomes', coq='fn_gary_autosomes', py_params=['self', 'also'], row_filter='self',
+             opaque=[dict(first='if isinstance(also, str)', last='for a_chrom in also',
+                          assigns=[('is_auto', 'named_auto'), ('also', 'also_after')])],
+             params=[('self.chromosome.str.match(r"(chr)?\\d+$", na=False)', 'B', 'name_is_auto'),
+                     ('is_auto.any()', 'B', 'any_auto'), ('also', 'OB'), ('isinstance(also, pd.Series)', 'B', 'also_is_series'),
+                     ('named_auto', 'B'), ('also_after', 'B')],
+             ret='B'),
+    ]),
+    'FnCnaryAutosomes': ('cnvlib/cnary.py', [
+        dict(name='CopyNumArray.autosomes', coq='fn_cnary_autosomes', py_params=['self', 'diploid_parx_genome', 'also'],
+             params=[('diploid_parx_genome is not None', 'B', 'has_build'), ('also', 'OB'),
+                     ('self.parx_filter(diploid_parx_genome)', 'B', 'in_parx'),
+                     ('isinstance(also, pd.Series)', 'B', 'also_is_series'),
+                     ('super().autosomes', 'F:also=OB>B', 'base_autosomes')],
+             ret='B'),
     ]),
     # commands.do_sex: strsign (whole; the two `%.3g` texts are string inputs, the number may be NaN), guess_and_format
     # (whole: the label `"Male" if is_xy else "Female"` on the optional boolean, `... if stats else "NA"` on the statistics
